@@ -37,6 +37,31 @@ pub fn read_exact_block(file: &mut std::fs::File, block: &mut Box<[u8; 32768]>) 
             && crate::vfs::file_rest(&*final(file)) == crate::vfs::file_rest(&*old(file)).skip(1),
 { use std::io::Read; file.read_exact(&mut **block) }
 
+/// R20: `file.read_exact(block)` on a `&mut [u8; 32768]` (read_block).  Assumed over the ghost FS model: Ok only if a full block was
+/// left (delivered and consumed); the error kind UnexpectedEof only if fewer than 32 KiB were left (then nothing more can be read).
+#[verifier::external_body]
+pub fn read_exact_arr(file: &mut std::fs::File, block: &mut [u8; 32768]) -> (r: std::io::Result<()>)
+    ensures
+        r is Ok ==> crate::vfs::file_rest(&*old(file)).len() > 0
+            && final(block)@ == crate::vfs::file_rest(&*old(file))[0]
+            && crate::vfs::file_rest(&*final(file)) == crate::vfs::file_rest(&*old(file)).skip(1),
+        r matches Err(e) ==> (unexpected_eof(e) ==> crate::vfs::file_rest(&*old(file)).len() == 0 && crate::vfs::file_rest(&*final(file)).len() == 0),
+{ use std::io::Read; file.read_exact(block) }
+
+/// ghost: the error's kind is `io::ErrorKind::UnexpectedEof`
+pub uninterp spec fn unexpected_eof(e: std::io::Error) -> bool;
+
+/// R20: `e.kind() == io::ErrorKind::UnexpectedEof`
+#[verifier::external_body]
+pub fn is_unexpected_eof(e: &std::io::Error) -> (r: bool)
+    ensures r == unexpected_eof(*e),
+{ e.kind() == std::io::ErrorKind::UnexpectedEof }
+
+/// R21: `Instant::now() + d` (no contract: only that it returns)
+#[verifier::external_body]
+pub fn instant_after(d: std::time::Duration) -> std::time::Instant
+{ std::time::Instant::now() + d }
+
 /// R19: `(start..).zip(it)`.  Assumed (the std contracts of RangeFrom<u64> and Zip): a well-behaved finite iterator
 /// stays so, and the i-th pair is (start + i, i-th element of `it`).
 #[verifier::external_body]
